@@ -64,7 +64,7 @@ func c08AllocComplete(mode, n int) {
 		vp.Assume(prev >= 2)
 		vp.Assume(prev < D+2)
 		for i := uint32(2); i < N; i++ {
-			vp.Assume(old[i] != prev)           // a head: nobody links to it
+			vp.Assume(old[i] != prev)              // a head: nobody links to it
 			vp.Assume(!(prev == i) || old[i] != 0) // and it is in use
 		}
 		// independent walk of the old chain over the raw entries
